@@ -225,6 +225,15 @@ def run(ck, F):
     rule_imports_followed(ck, F)
     from rules import c11 as C11
     C11.rule_every_import_followed(ck, F, rule="R5")
+    # .. and the file an import names is the file that is read: looked up under the name the import gives, among the files of the one
+    # directory the start file lies in (C11.R4, kept: with a file of another directory in its place the types of the output are not the
+    # schema's)
+    from rules import c04 as C04
+    sub = C04._Sub(ck, "R5", lambda key: key.startswith(("lookup-key", "key-", "siblings:other-directory", "siblings:one-directory")) or "floor" in key)
+    C11.rule_verbatim_keys(sub, F, "R4")
+    ub_ = F.lib.body("utils::read_input_file_and_xsd_files_at_path")
+    if ub_ is not None:
+        C11.rule_all_siblings_visited(sub, F, ub_, "R4")
     rule_naming(ck, F, X)
 
 
